@@ -64,6 +64,10 @@ pub enum Req {
     /// connect an empty block
     AddBlockEmpty,
     Allowlist,
+    /// counterparty commitment 2 of channel 1 with a new outgoing HTLC for the keysend hash
+    PayA,
+    /// counterparty commitment 1 of channel 4 with an outgoing HTLC for the same hash
+    PayB,
 }
 
 impl Req {
@@ -76,6 +80,7 @@ struct Ctx {
     w: World,
     f: Funded,
     chain: SimChain,
+    f4: Option<Funded>,
 }
 
 // shuttle runs every task as a coroutine on one OS thread, one at a time
@@ -89,7 +94,7 @@ fn wcfg() -> WorldCfg {
     c
 }
 
-fn build_ctx(prep: &[Req]) -> Ctx {
+fn build_ctx(prep: &[Req], two: bool) -> Ctx {
     let w = World::new(wcfg());
     let mut chain = w.new_sim_chain();
     let b = make_block(&chain.tip().0, chain.height() + 1, 0, vec![]);
@@ -98,7 +103,16 @@ fn build_ctx(prep: &[Req]) -> Ctx {
     let b = make_block(&chain.tip().0, chain.height() + 1, 0, vec![f.funding_tx.clone()]);
     assert!(w.connect(&mut chain, b, Delivery::Compact).is_ok());
     assert!(w.new_channel(2).is_ok());
-    let ctx = Ctx { w, f, chain };
+    let f4 = if two {
+        let f4 = fund_channel(&w, 4, false, false);
+        let c0 = f4.c0.clone();
+        let p0 = f4.cp.point(0);
+        assert!(w.with_chan(4, |ch| ch.sign_counterparty_commitment_tx_phase2(&p0, 0, c0.feerate, c0.to_holder, c0.to_cp, c0.inc_info(), c0.out_info())).is_ok());
+        Some(f4)
+    } else {
+        None
+    };
+    let ctx = Ctx { w, f, chain, f4 };
     for r in prep {
         let t = exec(&ctx, *r);
         assert!(t.starts_with("ok"), "scenario preparation step {:?} refused: {}", r, t);
@@ -189,6 +203,21 @@ fn exec(c: &Ctx, r: Req) -> String {
             let b = make_block(&chain.tip().0, chain.height() + 1, 5, txs);
             tag(w.connect(&mut chain, b, if r == Req::AddBlockCloseStreamed { Delivery::Streamed } else { Delivery::Compact }))
         }
+        Req::PayA => {
+            let p = f.cp.point(2);
+            let mut c = c1.clone();
+            c.out.push(H { value_sat: 30_000, hash: 9, cltv: 62 });
+            c.to_holder -= 30_000;
+            tag(w.with_chan(1, |ch| ch.sign_counterparty_commitment_tx_phase2(&p, 2, c.feerate, c.to_holder, c.to_cp, c.inc_info(), c.out_info())))
+        }
+        Req::PayB => {
+            let f4 = c.f4.as_ref().expect("two-channel scenario");
+            let p = f4.cp.point(1);
+            let mut cc = f4.c0.clone();
+            cc.out.push(H { value_sat: 30_000, hash: 9, cltv: 62 });
+            cc.to_holder -= 30_000;
+            tag(w.with_chan(4, |ch| ch.sign_counterparty_commitment_tx_phase2(&p, 1, cc.feerate, cc.to_holder, cc.to_cp, cc.inc_info(), cc.out_info())))
+        }
         Req::Allowlist => {
             let node = w.node.clone();
             let addr = node.get_native_address(&wallet_path(77)).unwrap().to_string();
@@ -248,6 +277,8 @@ pub fn scenarios(tier: Tier) -> Vec<Scenario> {
     v.push(Scenario { prep: vec![], reqs: vec![SignHolder1, ValidateRevoke] });
     v.push(Scenario { prep: vec![], reqs: vec![SignCp, CpRevoke] });
     v.push(Scenario { prep: vec![SignCp], reqs: vec![CpRevoke, Forget1] });
+    // one approved payment, two channels each adding an outgoing HTLC for it
+    v.push(Scenario { prep: vec![Keysend], reqs: vec![PayA, PayB] });
     for k in [SignCp, ValidateRevoke, Forget1, Balance, Heartbeat] {
         v.push(Scenario { prep: vec![], reqs: vec![AddBlockCloseStreamed, k] });
     }
@@ -488,7 +519,7 @@ fn run_sequential_full(sc: &Scenario, order: &[usize]) -> Result<(Obs, Value), S
     let runner = shuttle::Runner::new(Sched(dfs.clone()), shuttle_config());
     let r = catch(move || {
         runner.run(move || {
-            let ctx = build_ctx(&sc2.prep);
+            let ctx = build_ctx(&sc2.prep, sc2.reqs.contains(&Req::PayB));
             let mut replies = vec![String::new(); sc2.reqs.len()];
             for &i in &order2 {
                 replies[i] = exec(&ctx, sc2.reqs[i]);
@@ -577,7 +608,7 @@ pub fn run_scenario(sc: &Scenario, bound: usize, wall_s: f64) -> ScenResult {
         let runner = shuttle::Runner::new(Budget(dfs2, tstart, deadline), shuttle_config());
         let r = catch(move || {
             runner.run(move || {
-                let ctx = StdArc::new(Shared(build_ctx(&sc2.prep)));
+                let ctx = StdArc::new(Shared(build_ctx(&sc2.prep, sc2.reqs.contains(&Req::PayB))));
                 let replies: StdArc<StdMutex<Vec<String>>> = StdArc::new(StdMutex::new(vec![String::new(); sc2.reqs.len()]));
                 let mut hs = vec![];
                 for (i, r) in sc2.reqs.iter().enumerate() {
@@ -757,7 +788,7 @@ pub fn replay(v: &Value) {
         let out2 = out.clone();
         let r = catch(move || {
             runner.run(move || {
-                let ctx = StdArc::new(Shared(build_ctx(&sc2.prep)));
+                let ctx = StdArc::new(Shared(build_ctx(&sc2.prep, sc2.reqs.contains(&Req::PayB))));
                 let replies: StdArc<StdMutex<Vec<String>>> = StdArc::new(StdMutex::new(vec![String::new(); sc2.reqs.len()]));
                 let mut hs = vec![];
                 for (i, r) in sc2.reqs.iter().enumerate() {
